@@ -1,7 +1,7 @@
 """C03 — optimize() preserves quantified, emptiness and set-inclusion predicates."""
 import itertools
 
-from common import gen, main, rng_of
+from common import call, gen, main, rng_of
 import optcommon as oc
 
 
@@ -99,6 +99,51 @@ def search(payload):
     res["evaluations"] += big["evaluations"]
     res["failures"] = (res["failures"] + big["failures"])[:10]
     res["known_hits"] += [h for h in big["known_hits"] if not h.get("witness")]
+    # HISTORY (history.py): the family's small trees again and again; ONE optimized predicate asked about a sequence of collections whose
+    # elements are == but of different types (1, 1.0, True); a caller who mutates the set it built a predicate from and optimizes again;
+    # collections with elements the element predicate cannot be applied to (on the reviewed tree both sides raise there)
+    from predicate.standard_predicates import all_p, any_p, ge_p, is_bool_p, is_float_p, is_int_p, lt_p
+    from predicate.set_predicates import is_subset_p
+    listed = oc.load_listed("C03") or {}
+    fam = [t for t, f in zip(trees, family) if f]
+    tpl = [t for t in fam[:: max(1, len(fam) // 150)] if oc.skey(t) not in listed]
+    pts = collections(False) + [[3, "a"], (5, None), [1, "a"], ["a", 3], [None]]
+
+    def seq_call(mk, xss):
+        def th():
+            p = mk()
+            q = oc.optimize(mk())
+            for xs in xss:                          # the SAME two objects, one collection after the other
+                a, b = call(p, xs), call(q, xs)
+                if a[0] == "ok" and a != b:
+                    return {"p": repr(p), "p_structure": oc.skey(p), "optimized": repr(q), "x": repr(xs), "original_answer": repr(a[1]), "optimized_answer": repr(b),
+                            "note": f"one optimized predicate object asked about the collections {xss!r} in this order"}
+            return None
+        return th
+    mixed = [[1.0], [True, 1], [1], [0.5, 2.0], [2, 7.0], (False, True), (0.0,), (0,), [1, 1.0, True], [True], [1.0, 1]]
+    extra = []
+    for nm, e in (("is_int_p", is_int_p), ("is_float_p", is_float_p), ("is_bool_p", is_bool_p)):
+        for lb, mk in ((f"~any_p(~{nm})", lambda e=e: ~any_p(~e)), (f"~all_p(~{nm})", lambda e=e: ~all_p(~e)), (f"all_p({nm}) & all_p(ge_p(0))", lambda e=e: all_p(e) & all_p(ge_p(0))),
+                       (f"any_p({nm}) | any_p(lt_p(0))", lambda e=e: any_p(e) | any_p(lt_p(0))), (f"any_p(~{nm})", lambda e=e: any_p(~e))):
+            extra.append((f"optimize({lb}) asked about [1.0], [True, 1], [1], [0.5, 2.0], ... in turn", seq_call(mk, mixed)))
+            extra.append((f"optimize({lb}) asked about the same collections in the opposite order", seq_call(mk, mixed[::-1])))
+
+    def mutate_then_reoptimize():
+        allowed = {1, 2}
+        p = is_subset_p(allowed) & is_subset_p({1, 2, 3, 4})
+        q1 = oc.optimize(p)
+        allowed.add(3)                               # the caller's own set, which the predicate refers to
+        q2 = oc.optimize(p)
+        for xs in ({3}, {1, 3}, {4}, set(), {1}):
+            if call(p, xs) != call(q2, xs):
+                return {"p": "is_subset_p(allowed) & is_subset_p({1, 2, 3, 4}) with allowed = {1, 2}", "x": repr(xs), "original_answer": repr(call(p, xs)), "optimized_answer": repr(call(q2, xs)),
+                        "optimized": repr(q2), "note": "optimize(p); allowed.add(3); optimize(p) again: the second result is judged against p as it is now"}
+        return None
+    extra.append(("optimize(p); allowed.add(3); optimize(p)  [p = is_subset_p(allowed) & is_subset_p({1, 2, 3, 4})]", mutate_then_reoptimize))
+    n, hfails = oc.history_search("C03", payload, tpl, pts, assignments=False, extra_calls=extra, vetted=True)
+    res["evaluations"] += n
+    res["history_calls"] = n
+    res["failures"] = (res["failures"] + hfails)[:10]
     return res
 
 
